@@ -25,6 +25,7 @@ struct dbg_ind
           policy::backward_compatible_error_handler<dbg_ind>> {};
 using the_policy = dbg_ind;
 #define POL_NAME "dbg_ind"
+#define POL_INDIRECT true
 #elif defined(POL_rel_ind)
 struct rel_ind
     : policy::basic_policy<
@@ -33,15 +34,32 @@ struct rel_ind
           policy::backward_compatible_error_handler<rel_ind>> {};
 using the_policy = rel_ind;
 #define POL_NAME "rel_ind"
+#define POL_INDIRECT true
 #elif defined(POL_rel_map)
 struct rel_map : policy::release::rebind<rel_map>::replace<
                      policy::external_vptr, policy::vptr_map<rel_map>>::
                      remove<policy::type_hash> {};
 using the_policy = rel_map;
 #define POL_NAME "rel_map"
+#elif defined(POL_dbg_inh)
+// indirect by inheritance, as in tests/benchmarks.cpp: the facet is a base of
+// the policy but not in basic_policy's facet list
+struct dbg_inh : policy::debug::rebind<dbg_inh>,
+                 policy::basic_indirect_vptr<dbg_inh> {};
+using the_policy = dbg_inh;
+#define POL_NAME "dbg_inh"
+#define POL_INDIRECT true
 #else
 #error "no POL_ selected"
 #endif
+
+#ifndef POL_INDIRECT
+#define POL_INDIRECT false
+#endif
+namespace e2 {
+template<>
+struct DeclaredIndirect<the_policy> : std::bool_constant<POL_INDIRECT> {};
+} // namespace e2
 
 namespace {
 bool registered = [] {
